@@ -260,10 +260,12 @@ def tablesOk (t : CTab) : Bool :=
   lettersOk && rowsOk t && allNonzero t && reqsOk t [] &&
   !t.any (fun p => setsField p.2.2 .f_human_readable) && decide (init.ints .f_human_readable ≤ 1)
 
-theorem finish_ok (n : Nat) (s : St) (hv : s.version = false) (hh : s.ints .f_human_readable ≤ 1) :
+theorem finish_ok (n : Nat) (s : St) (hv : s.version = false) (hh : s.ints .f_human_readable ≤ 1)
+    (hd : s.ints .f_delete_mode ≠ 0 → s.ints .f_recurse ≠ 0) :
     ∃ s', finish n s = .ok s' ∧ ∀ f, f ≠ .f_xfer_dirs → s'.ints f = s.ints f := by
   have hh' : ¬ (s.ints .f_human_readable > 1 ∧ n = 1) := fun h => by omega
-  simp only [finish, hv, Bool.false_eq_true, if_false, hh']
+  have hd' : ¬ (s.ints .f_delete_mode ≠ 0 ∧ s.ints .f_recurse = 0) := fun h => hd h.1 h.2
+  simp only [finish, hv, Bool.false_eq_true, if_false, hh', hd']
   refine ⟨_, rfl, ?_⟩
   intro f hf
   have key : ∀ (s0 : St) (v : Int), (s0.set .f_xfer_dirs v).ints f = s0.ints f := by
@@ -276,7 +278,8 @@ theorem finish_ok (n : Nat) (s : St) (hv : s.version = false) (hh : s.ints .f_hu
 
 /-- **forwarding**: whatever the client's accessors say, the server parses the rendered options to a
 state in which every field is non-zero exactly when its formula holds -/
-theorem parse_serverOptions (σ : Acc → Bool) (t : CTab) (ht : tokTable = some t) (hok : tablesOk t = true) :
+theorem parse_serverOptions (σ : Acc → Bool) (t : CTab) (ht : tokTable = some t) (hok : tablesOk t = true)
+    (hdel : cEval σ (setFormula t .f_delete_mode) = true → cEval σ (setFormula t .f_recurse) = true) :
     ∃ s', parse (serverOptions σ) = .ok s' ∧
       ∀ f, f ≠ .f_xfer_dirs → init.ints f = 0 → ((s'.ints f != 0) = cEval σ (setFormula t f)) := by
   simp only [tablesOk, Bool.and_eq_true, Bool.not_eq_true', decide_eq_true_eq] at hok
@@ -286,7 +289,14 @@ theorem parse_serverOptions (σ : Acc → Bool) (t : CTab) (ht : tokTable = some
   have hv : (applyAll (presentRows σ t) init).version = false := by rw [applyAll_version]; rfl
   have hh : (applyAll (presentRows σ t) init).ints .f_human_readable ≤ 1 := by
     rw [applyAll_other σ t init _ hhr]; exact hh1
-  obtain ⟨s', hs', hsame⟩ := finish_ok (serverOptions σ).length _ hv hh
+  have hd : (applyAll (presentRows σ t) init).ints .f_delete_mode ≠ 0 → (applyAll (presentRows σ t) init).ints .f_recurse ≠ 0 := by
+    rw [applyAll_nz σ t init .f_delete_mode hnz (by decide), applyAll_nz σ t init .f_recurse hnz (by decide),
+      ← eval_setFormula, ← eval_setFormula]
+    have i1 : init.ints .f_delete_mode = 0 := by decide
+    have i2 : init.ints .f_recurse = 0 := by decide
+    simp only [i1, i2, ne_eq, not_true_eq_false, false_or]
+    exact hdel
+  obtain ⟨s', hs', hsame⟩ := finish_ok (serverOptions σ).length _ hv hh hd
   refine ⟨s', ?_, ?_⟩
   · simp only [parse, parseFrom, hlex, hrun, hs']
   · intro f hf h0
